@@ -42,6 +42,7 @@ def main():
     ap.add_argument("--glob", default="/tmp/mut/C*/out/m*.diff")
     ap.add_argument("--own", action="store_true")
     ap.add_argument("-v", action="store_true")
+    ap.add_argument("--json")
     a = ap.parse_args()
     avail = available()
     pids = a.pids.split(",") if a.pids else avail
@@ -67,6 +68,8 @@ def main():
             for p in hits + errs:
                 print(f"      {p}: {out[p][1]}")
     print(f"{caught}/{len(jobs)} changes reported by at least one check")
+    if a.json:
+        json.dump({d: {p: v[0] for p, v in out.items() if isinstance(v, tuple)} for (d, ps, own), (_, out) in zip(jobs, results)}, open(a.json, "w"), indent=1)
 
 
 if __name__ == "__main__":
